@@ -23,7 +23,8 @@ from yamlpath.commands import yaml_merge
 PROPERTY = "C18"
 LEVEL = "exploration"
 RULE = ("pairs of document streams of lengths 1-4 (maps / lists; occasionally an empty document) x modes {condense_all, "
-        "merge_across, matrix_merge} x a sample of C05 policies; through the three library functions (all cases) and "
+        "merge_across, matrix_merge} x a sample of C05 policies; a quarter of the cases use streams of documents that define "
+        "and alias scalar anchors from a shared name pool, under the four anchor policies; through the three library functions (all cases) and "
         "through the yaml-merge console entry point with -M (a sample). Non-trivial = at least one stream has >=2 "
         "documents; distinct by (left stream, right stream, mode, policies)")
 ASSUMPTIONS = ["each pairwise step is the library's own merge_with on fresh copies (C05 judges the step itself)",
@@ -31,14 +32,16 @@ ASSUMPTIONS = ["each pairwise step is the library's own merge_with on fresh copi
 REACH = [("yamlpath/commands/yaml_merge.py", "merge_condense_all,merge_across,merge_matrix,merge_docs,get_doc_mergers", "yaml_merge multi-document functions"),
          ("yamlpath/merger/mergerconfig.py", "get_multidoc_mode", "MergerConfig.get_multidoc_mode")]
 SIZES = {"quick": dict(lib=12000, cli=150), "thorough": dict(lib=400000, cli=3000)}
-REQUIRED_COUNTERS = ["lib_cases", "cli_cases", "matrix_cases"]
+REQUIRED_COUNTERS = ["lib_cases", "cli_cases", "matrix_cases", "anchored_stream_cases"]
 MODES = ["condense_all", "merge_across", "matrix_merge"]
 SAMPLE = [("deep", "all", "all", "unique"), ("deep", "unique", "deep", "unique"), ("deep", "all", "deep", "unique"),
           ("right", "right", "right", "right")]
 
 
 def cfg_ns(combo, mode):
-    return SimpleNamespace(hashes=combo[0], arrays=combo[1], aoh=combo[2], sets=combo[3], multi_doc_mode=mode)
+    """combo = (hashes, arrays, aoh, sets[, anchors])"""
+    return SimpleNamespace(hashes=combo[0], arrays=combo[1], aoh=combo[2], sets=combo[3], multi_doc_mode=mode,
+                           anchors=combo[4] if len(combo) > 4 else "stop")
 
 
 def pair(acc_text_or_data, rtext, combo, mode):
@@ -171,7 +174,8 @@ def run_cli(ctx, ltexts, rtexts, combo, mode, workdir):
         exp, exp_err = None, e
     except Exception:
         return
-    r = cli.run("yaml_merge", ["-S", "-D", "yaml", "-M", mode, "-H", combo[0], "-A", combo[1], "-O", combo[2], "-E", combo[3], lf, rf])
+    r = cli.run("yaml_merge", ["-S", "-D", "yaml", "-M", mode, "-H", combo[0], "-A", combo[1], "-O", combo[2], "-E", combo[3]]
+                + (["-a", combo[4]] if len(combo) > 4 else []) + [lf, rf])
     if r["exc"]:
         ctx.violation("cli-crash/%s" % mode, {"case": case, "summary": r["exc"][:200]})
         return
@@ -230,6 +234,20 @@ def run_shard(ctx):
     ncli = 0
     n = 0
     while ctx.counters.get("lib_cases", 0) < want:
+        if rng.random() < 0.25:
+            # streams whose documents define and alias scalar anchors from one small name pool: every step of a
+            # multi-document merge must resolve conflicts against the document accumulated so far
+            from vf.checks import C10
+            ltexts = [gd.render(C10.gen(rng)[0]) for _ in range(rng.choice([1, 1, 2]))]
+            rtexts = [gd.render(C10.gen(rng)[0]) for _ in range(rng.choice([1, 2, 2, 3]))]
+            combo = rng.choice(SAMPLE) + (rng.choice(C10.POLICIES),)
+            for mode in MODES:
+                ctx.counters["anchored_stream_cases"] = ctx.counters.get("anchored_stream_cases", 0) + 1
+                run_lib(ctx, ltexts, rtexts, combo, mode)
+            if ncli < wcli and rng.random() < 0.3:
+                run_cli(ctx, ltexts, rtexts, combo, rng.choice(MODES), workdir)
+                ncli += 1
+            continue
         base = C05.gen_tree(rng, 0, rng.choice(["map", "map", "seq"]))
         lts = gen_stream(rng, base)
         rts = gen_stream(rng, base)
